@@ -114,7 +114,7 @@ PROPERTIES = {
     },
     "C07": {
         "level": "proof",
-        "verus_units": ["nofrac"],
+        "verus_units": ["nofrac", "remint@*"],
         "kani": _mods("rem8", ["i4f4", "i1f7", "u4f4"], REM) + ["rem8::div_euclid_region_reachable"],
         "kani_thorough": _mods("rem8", ["i0f8", "i8f0", "i6f2", "u0f8", "u8f0", "u1f7"], REM),
         "explanation": "checked_rem / checked_rem_euclid / rem_euclid / % verified for all ten families (Verus); the integer-divisor and "
@@ -130,7 +130,7 @@ PROPERTIES = {
     },
     "C11": {
         "level": "proof",
-        "verus_units": ["arith_widen", "arith128", "widediv", "nofrac", "fracops", "round@*", "transc", "leaves", "cmp@*", "fromfixed@*", "fromfloat@*", "wrapping", "traitfwd@*", "intconv", "floatglue", "trig", "cmpfloat@*", "cmpfloatrev@*", "cmpint@*", "cmpintrev@*", "bitops@*"],
+        "verus_units": ["arith_widen", "arith128", "widediv", "nofrac", "fracops", "round@*", "transc", "leaves", "cmp@*", "fromfixed@*", "fromfloat@*", "wrapping", "traitfwd@*", "intconv", "floatglue", "trig", "cmpfloat@*", "cmpfloatrev@*", "cmpint@*", "cmpintrev@*", "bitops@*", "remint@*"],
         "kani": [{"harness": h, "classes": ["panic"]} for h in
                  _mods("arith8", ["i4f4", "i0f8", "u4f4", "u0f8"], FORMS) + ["arith8::abs_forms_i8"] + TFH
                  + ["float::check_to_f32", "float::check_to_f64", "float::check_kind_f32", "float::check_kind_f64"]
